@@ -241,6 +241,18 @@ func (g gen07) textKey() []byte {
 	for i := range b {
 		b[i] = byte(33 + g.r.Intn(94))
 	}
+	if n >= 8 && g.r.Chance(6) {
+		// a key that is legal UTF-8 with a Unicode white-space rune inside (not at its ends): no
+		// byte of it is 0x20, \t, \r or \n, so it is one key
+		sp := []string{"\u3000", "\u00a0", "\u2003", "\u0085", "\u2028"}[g.r.Intn(5)]
+		k := append([]byte("uk"), []byte(sp)...)
+		k = append(k, b[:n-len(k)-0]...)
+		if len(k) > 250 {
+			k = k[:250]
+		}
+		k[len(k)-1] = 'z'
+		return k
+	}
 	return b
 }
 
